@@ -211,6 +211,7 @@ func runCheck(prop, tier string, ovs []string, only string, writeBaseline, noRep
 		return 0
 	}
 	tLoad := time.Since(t0)
+	ctx.prop = prop
 	// run every function under contract for this property
 	var frs []*FuncResult
 	for _, pp := range wantPkgs {
